@@ -106,4 +106,12 @@ REG = {
         'histories. TLC requires every notification to go to a registered observer with its token and a strictly fresher Observe value, at most five NON in a '
         'row, nothing after deregistration, one entry per key, and the last state to reach every observer still registered when the run is quiet.',
    note='Known finding KF_C11_RST_OLD_NOTIFICATION (RST for an older notification) is reported, not failed. Notifications larger than one block are left to C09.'),
+ 'C17': dict(module='persist', engine='persist', category='model_checking', design_ref='4/C17',
+   technique='TLA+ spec Persist (update protocol with crash points, TLC) + kill at every intercepted stdio/rename call of the real code, restart, TLC judging files and restored state',
+   text='MC_Persist model-checks the temp-file + rename update protocol with a crash between any two calls (file is always the complete old or new content; the in-place '
+        'variant is rejected). The real server runs histories of dynamic-resource creation/deletion, observe registration/cancellation and notifications with save_freq '
+        '1/2/4/10; every stdio and rename call the persistence code makes is intercepted at link time, and for each call index the process is killed once before and once '
+        'after that call. The files left behind must equal the content before or after the interrupted operation (taken from an uncrashed reference run), and a process '
+        'restarted on them must have exactly the resources and observers of one of those two states and must send Observe values greater than any sent before the kill.',
+   note='Kill = process death (kernel buffers survive); power loss / fsync ordering is not modelled. Quick tier samples up to 45 kill indices per history, thorough takes all.'),
 }
